@@ -308,6 +308,7 @@ func runC12(c *kit.Ctx) {
 	if grc, ml := c.Anchor("", "client", "getRegionFromCache"), c.Anchor("", "client", "metaLookup"); grc != nil && ml != nil {
 		lookupValidators(c, grc, ml)
 		establisherHandoff(c)
+		retryLoopsWait(c)
 	}
 
 	// ---- R3 ---------------------------------------------------------------
